@@ -124,13 +124,18 @@ def alphabet_of(g):
     return sorted(c for c in out if isinstance(c, int))
 
 
-def in_child(fn, timeout=60.0):
-    """Run fn() in a forked child; returns its (picklable) result or ('child-failed', reason)."""
+def in_child(fn, timeout=45.0):
+    """Run fn() in a forked child; returns ("ok", result) or ("exc", reason).  The child is killed
+    when it exceeds ``timeout`` seconds of wall time or when the parent is interrupted."""
+    import select
+    import signal
+
     r, w = os.pipe()
     pid = os.fork()
     if pid == 0:
         try:
             os.close(r)
+            signal.setitimer(signal.ITIMER_REAL, 0)  # the parent's watchdog is not ours
             try:
                 res = ("ok", fn())
             except BaseException as e:  # noqa
@@ -144,12 +149,40 @@ def in_child(fn, timeout=60.0):
         finally:
             os._exit(0)
     os.close(w)
-    with os.fdopen(r, "rb") as f:
-        hdr = f.read(4)
-        data = f.read(struct.unpack("<I", hdr)[0]) if len(hdr) == 4 else b""
-    os.waitpid(pid, 0)
+    data = b""
+    try:
+        deadline = boot.REAL_TIME() + timeout
+        buf = b""
+        need = None
+        while True:
+            left = deadline - boot.REAL_TIME()
+            if left <= 0:
+                return ("exc", "child-timeout after %.0fs" % timeout)
+            rl, _, _ = select.select([r], [], [], min(left, 1.0))
+            if not rl:
+                continue
+            chunk = os.read(r, 1 << 16)
+            if not chunk:
+                break
+            buf += chunk
+            if need is None and len(buf) >= 4:
+                need = struct.unpack("<I", buf[:4])[0]
+            if need is not None and len(buf) >= 4 + need:
+                break
+        data = buf[4 : 4 + need] if need is not None else b""
+    finally:
+        try:
+            os.close(r)
+        except OSError:
+            pass
+        try:
+            os.kill(pid, 9)
+        except OSError:
+            pass
+        try:
+            os.waitpid(pid, 0)
+        except OSError:
+            pass
     if not data:
         return ("exc", "child died")
     return pickle.loads(data)
-
-
